@@ -133,6 +133,18 @@ func runC19(cfg *config) *Report {
 				// values conditional members legitimately take, and the ones a lenient path may want to fill in
 				if !seenTag[string(tag)] || cfg.tier == "thorough" {
 					seenTag[string(tag)] = true
+					// the record repeated right after itself (a credit reconciliation record sent twice, an addendum twice):
+					// where both settings accept the stream, they hold the same records
+					{
+						lo, hi := rc[0], rc[1]
+						if e.LP {
+							lo -= 4
+						} else if hi < len(out) {
+							hi++
+						}
+						dup := append(append(append([]byte{}, out[:hi]...), out[lo:hi]...), out[hi:]...)
+						cases = append(cases, kase{dup, e, fmt.Sprintf("record %s repeated", tag)})
+					}
 					fpos := 0
 					for _, w := range L.Write {
 						if w.Width == 0 {
